@@ -107,6 +107,12 @@ def classify_crash(stderr_text):
             return "inconclusive", "watchdog-without-mutex-waiters", stderr_text[:3000]
         sig = "hang " + " | ".join(r for r in roots if ("Mutex" in r or "semacquire" in r or "chan" in r or "select" in r))[:400]
         return "hang", sig, "\n\n".join(b for b in blocks if LIB in b)[:6000]
+    if "SIGSEGV" in stderr_text[:200] or re.search(r"^(SIGSEGV|SIGBUS|fatal error: unexpected signal)", stderr_text, re.M):
+        # a crash of the Go runtime itself (seen: runtime.(*timer).maybeRunChan inside selectgo of a synctest
+        # bubble, go1.26.8): when the crashing goroutine has no library frame this says nothing about the library
+        head = stderr_text.split("\n\ngoroutine 1 ")[0]
+        if LIB not in head:
+            return "toolchain", "go-runtime-crash " + (re.search(r"^runtime\.[^\n(]+", head, re.M).group(0) if re.search(r"^runtime\.[^\n(]+", head, re.M) else "?"), head[:1500]
     m = re.search(r"^(panic: .*|fatal error: .*)$", stderr_text, re.M)
     if m:
         msg = m.group(1)
@@ -160,14 +166,14 @@ def run_part(binpath, part, tier, seed, prop, tmpdir):
     test = part["test"]
     n = part[tier]
     if n <= 0:
-        return dict(recs=[], crashes=[], races=[], n=0, inconclusive=[])
+        return dict(recs=[], crashes=[], races=[], n=0, inconclusive=[], toolchain=[])
     per = part.get("per_shard", 8)
     shards = max(1, min(part.get("max_shards", NCPU), (n + per - 1) // per))
     wd = part.get("watchdog", 90 if tier == "quick" else 180)
     procs = []
     for k in range(shards):
         procs.append(dict(k=k, frm=0, attempt=0))
-    recs, crashes, inconclusive = [], [], []
+    recs, crashes, inconclusive, toolchain = [], [], [], []
     race_prefix = os.path.join(tmpdir, f"race.{test}")
     active = []
 
@@ -213,9 +219,19 @@ def run_part(binpath, part, tier, seed, prop, tmpdir):
                 oc = open_cases[-1]
                 stderr_text = open(pr["err"], errors="replace").read()
                 kind, sig, excerpt = classify_crash(stderr_text)
+                if kind == "toolchain":
+                    # retry the same case (twice); a case that keeps crashing the runtime is skipped and reported
+                    retries = pr.get("retries", {})
+                    n_retry = retries.get(oc["index"], 0)
+                    toolchain.append(dict(test=test, index=oc["index"], sig=sig, retry=n_retry))
+                    retries[oc["index"]] = n_retry + 1
+                    nxt = oc["index"] if n_retry < 2 else oc["index"] + 1
+                    pr2 = dict(k=pr["k"], frm=nxt, attempt=pr["attempt"] + 1, retries=retries)
+                    launch(pr2)
+                    continue
                 crashes.append(dict(test=test, index=oc["index"], kind=kind, sig=sig, excerpt=excerpt, rc=rc))
                 if pr["attempt"] < 200:
-                    pr2 = dict(k=pr["k"], frm=oc["index"] + 1, attempt=pr["attempt"] + 1)
+                    pr2 = dict(k=pr["k"], frm=oc["index"] + 1, attempt=pr["attempt"] + 1, retries=pr.get("retries", {}))
                     launch(pr2)
             elif rc != 0:
                 stderr_text = open(pr["err"], errors="replace").read()
@@ -226,7 +242,7 @@ def run_part(binpath, part, tier, seed, prop, tmpdir):
                 elif "FAIL" in stderr_text or "panic" in stderr_text:
                     inconclusive.append(f"{test} shard {pr['k']}: exit {rc} outside a case: {stderr_text[-800:]}")
     races = parse_race_logs(race_prefix)
-    return dict(recs=recs, crashes=crashes, races=races, n=n, inconclusive=inconclusive)
+    return dict(recs=recs, crashes=crashes, races=races, n=n, inconclusive=inconclusive, toolchain=toolchain)
 
 
 def load_known():
@@ -291,13 +307,18 @@ def run_check(prop, tier):
     races_raw = 0
     race_sigs = {}
     per_part = {}
+    toolchain_all = []
+    leaks = []
     for part in spec["parts"]:
         res = run_part(bins[bool(part.get("norace"))], part, tier, seed, prop, tmpdir)
         ends = [r for r in res["recs"] if r["kind"] == "end"]
+        ends = list({r["index"]: r for r in ends}.values())  # a retried case is counted once
         evaluations += len(ends)
         per_part[part["test"]] = dict(cases=len(ends), planned=res["n"])
         inconclusive += res["inconclusive"]
-        if len(ends) + len(res["crashes"]) < res["n"] and not res["inconclusive"]:
+        skipped = len({t["index"] for t in res["toolchain"] if t["retry"] >= 2})
+        toolchain_all += res["toolchain"]
+        if len(ends) + len(res["crashes"]) + skipped < res["n"] and not res["inconclusive"]:
             inconclusive.append(f"{part['test']}: only {len(ends)} of {res['n']} cases reported")
         for r in ends:
             if r.get("nontrivial"):
@@ -309,16 +330,24 @@ def run_check(prop, tier):
             for v in r.get("viols") or []:
                 if v["property"] == prop:
                     violations.append((v["sig"], v["detail"], part["test"], r["index"], dict(params=r.get("params"), notes=r.get("notes"))))
+            if r.get("inconclusive"):
+                inconclusive.append(f"{part['test']}[{r['index']}]: " + "; ".join(n for n in (r.get("notes") or []) if n.startswith("INCONCLUSIVE"))[:600])
             if r.get("panic"):
                 fr = top_lib_frame(r.get("stack", ""))
                 msg = re.sub(r"0x[0-9a-f]+", "0x", r["panic"])[:120]
-                if r["panic"].startswith("synctest:") and fr == "?":
-                    # bubble ended with goroutines still blocked: a leak/hang observation
-                    violations_or_inc = ("leak " + msg)
-                    if spec.get("leak_is_violation"):
-                        violations.append((violations_or_inc, r.get("stack", "")[:2000], part["test"], r["index"], None))
+                if r["panic"].startswith("synctest:"):
+                    # the bubble ended with goroutines still parked: triage from the dump of what is left
+                    left = r.get("stack", "")
+                    lib_blocks = [b for b in left.split("\n\n") if LIB in b and "/testutil" not in b]
+                    on_lock = [b for b in lib_blocks if re.match(r"goroutine \d+ \[(sync\.(RW)?Mutex|semacquire)", b.strip())]
+                    if on_lock and prop == "C20":
+                        violations.append(("goroutine-left-on-library-lock " + top_lib_frame(on_lock[0]), on_lock[0][:3000], part["test"], r["index"], None))
+                    elif lib_blocks:
+                        # parked on a channel/timer inside library code (e.g. a per-channel monitor that outlives
+                        # Manager.Stop): a leak, reported in the evidence, never a verdict
+                        leaks.append(dict(test=part["test"], index=r["index"], where=top_lib_frame(lib_blocks[0])))
                     else:
-                        inconclusive.append(f"{part['test']}[{r['index']}]: {msg}")
+                        leaks.append(dict(test=part["test"], index=r["index"], where="foreign (dependency goroutine)"))
                 elif fr == "?":
                     inconclusive.append(f"{part['test']}[{r['index']}]: harness panic: {msg} :: {r.get('stack','')[:1500]}")
                 else:
@@ -383,6 +412,8 @@ def run_check(prop, tier):
             race_reports_dedup=[dict(sig=s, scope=e["scope"], count=e["count"]) for s, e in race_sigs.items()],
             known_findings_observed=[dict(signature=s, count=c) for s, (k, c) in seen_known.items()],
             inconclusive=inconclusive[:20],
+            goroutines_left_at_bubble_exit=leaks[:20],
+            go_runtime_crashes=[dict(test=t["test"], index=t["index"], sig=t["sig"], retry=t["retry"]) for t in toolchain_all][:20],
             exhaustive=False,
         ),
         assumptions=spec.get("assumptions", []),
